@@ -129,6 +129,36 @@ def run(ctx, tier):
                 ctx.violation("result-differs-for-numpy-str-argument:" + _name(fn).split(".")[-1], function=_name(fn), args=repr(a)[:300],
                               with_str=repr(base)[:300], with_numpy_str=repr(alt)[:300], monitor="replay", case=None)
     ctx.hit("replay_numpy_str_calls", ns)
+    # phase 1j: hexadecimal digits are case-insensitive, digit by digit: the same frame spelled in upper case, lower case and with
+    # every letter's case drawn separately ("8d4A0b...") gives the same answer (a two-character byte table built from "%02X" and
+    # "%02x" knows "AB" and "ab" but not "aB")
+    nh = 0
+    if "hexcase" not in skip:
+        for i in order[:3000]:
+            fn, a, k, want = rec[i]
+            idx = [j for j, x in enumerate(a) if type(x) is str and len(x) >= 14 and len(x) % 2 == 0 and _ishex(x) and x.upper() != x.lower()]
+            if not idx:
+                continue
+            base = probe.call(fn, *_copy(a), **_copy(k))
+            for label in ("upper", "lower", "mixed", "mixed"):
+                a2 = list(_copy(a))
+                for j in idx:
+                    x = a[j]
+                    a2[j] = x.upper() if label == "upper" else x.lower() if label == "lower" else \
+                        "".join(ch.upper() if rng.random() < 0.5 else ch.lower() for ch in x)
+                alt = probe.call(fn, *a2, **_copy(k))
+                ctx.ev()
+                same = (alt[0] == base[0] == "exc" and alt[1] == base[1]) or (alt[0] == base[0] == "ok" and repr(_norm(alt)) == repr(_norm(base)))
+                if not same and alt[0] == base[0] == "ok" and type(alt[1]) is str and type(base[1]) is str and alt[1].lower() == base[1].lower() \
+                        and any(alt[1] in a2[j] for j in idx):
+                    same = True       # a function that hands back a SLICE of its argument (common.data) keeps the caller's spelling
+                if not same:
+                    ctx.violation("result-depends-on-hex-letter-case:" + _name(fn).split(".")[-1], function=_name(fn), args=repr(a)[:300],
+                                  as_recorded=repr(_norm(base))[:200], spelling=label, respelled=repr([a2[j] for j in idx])[:200],
+                                  respelled_result=repr(_norm(alt))[:200], monitor="replay", case=None)
+                    break
+            nh += 1
+    ctx.hit("replay_hex_letter_case_calls", nh)
     # phase 1f: ambient settings of the host program (numpy print options, decimal context) are none of the decoders' business
     na = 0
     if np is not None:
@@ -355,6 +385,14 @@ def _cold(ctx, tier, rec, rng):
             os.remove(path)
         except OSError:
             pass
+
+
+def _ishex(x):
+    try:
+        int(x, 16)
+        return not x.startswith(("0x", "0X", "+", "-", " ")) and "_" not in x
+    except ValueError:
+        return False
 
 
 def _norm(x):
